@@ -277,10 +277,14 @@ func (s *SMS) PostSetup(w http.ResponseWriter, r *http.Request) error {
 		return s.Core.Responder.Respond(w, r, http.StatusOK, PageSMSSetup, data)
 	}
 
-	authboss.PutSession(w, SessionSMSNumber, number)
 	if err = s.SendCodeToUser(w, r, user.GetPID(), number); err != nil {
 		return err
 	}
+
+	// Only remember the number once a code has been sent to it: if sending was
+	// refused (rate limit) the code still held by the session belongs to another
+	// number and must not be able to confirm this one.
+	authboss.PutSession(w, SessionSMSNumber, number)
 
 	ro := authboss.RedirectOptions{
 		Code:         http.StatusTemporaryRedirect,
